@@ -73,7 +73,7 @@ type c10Op struct {
 	// Sweep: run the operation with a failure at EVERY position 1 .. tasks+1 in turn, then once without failure.
 	Sweep bool `json:"sweep,omitempty"`
 	// Inside: make the first backend call with this op name during the change fail once: `remove-snap-files` (discard-snap
-	// answers with state.Retry and is re-run), `unlink-snap`, `remove-snap-data` (the task fails, the change is undone),
+	// answers with state.Retry and is re-run), `unlink-snap`, `remove-snap-data`, `copy-data` (the task fails, the change is undone),
 	// `link-snap` (the LinkSnap call of the target revision fails; link-snap cleans up and fails). "" = none
 	Inside string `json:"inside,omitempty"`
 	// InUse: revisions the boot environment uses (snap_core, snap_try_core) while the operation runs; core histories only
@@ -863,7 +863,7 @@ func c10RandOp(r *vh.Rand, installed bool) c10Op {
 	if r.Chance(1, 2) {
 		op.Fail = r.Range(1, 60)
 	} else if r.Chance(1, 6) {
-		op.Inside = r.Pick([]string{"remove-snap-files", "remove-snap-files", "unlink-snap", "link-snap", "remove-snap-data"})
+		op.Inside = r.Pick([]string{"remove-snap-files", "remove-snap-files", "unlink-snap", "link-snap", "remove-snap-data", "copy-data"})
 	}
 	return op
 }
@@ -926,7 +926,8 @@ func c10Sweeps(tier string) []c10In {
 		// ... and backend calls of link-snap / unlink-current-snap / unlink-snap / clear-snap that fail: the task fails, the change is undone
 		{Ops: []c10Op{inst, newr, {Kind: "refresh", Inside: "link-snap"}, {Kind: "refresh", Inside: "unlink-snap"},
 			{Kind: "disable", Inside: "unlink-snap"}, {Kind: "remove", Inside: "remove-snap-data"}, {Kind: "remove", Inside: "unlink-snap"},
-			{Kind: "install", Rev: 9, Inside: "link-snap"}, {Kind: "revert", Inside: "link-snap"}}},
+			{Kind: "install", Rev: 9, Inside: "link-snap"}, {Kind: "revert", Inside: "link-snap"},
+			{Kind: "refresh", Inside: "copy-data"}, {Kind: "refresh-path", Inside: "copy-data"}}},
 		// C12: the boot base `core` of the UC16 model: revisions named by snap_core / snap_try_core are in use and are never
 		// garbage-collected (boot.InUse through snapstate's inUseFor); retain 3 (default) and lowered to 2
 		// (refresh.retain is configuration OF the core snap: setting it would give the snap under test a configuration entry
